@@ -40,11 +40,15 @@ def run(tier, seed):
     # ---- leg 1: model checking of the specification
     mcs = [("mc2d", dict(Sizes2={1, 2, 3} if quick else {1, 2, 3, 4}, Sizes3=set(), MaxSteps=3, Empties=EMP,
                          WriteVals={7}, MaxWrites=1 if quick else 0, KeepLog=False), ["Refines", "OffsetIsAccumulated"]),
-           ("mc3d", dict(Sizes2=set(), Sizes3={1, 2} if quick else {1, 2, 3}, MaxSteps=2 if quick else 3, Empties=EMP,
+           # 3D: sizes 1..3 with histories of 2 translations, sizes 1..2 with 3 (3 x 3 x 3 grids with 3 translations of 729 offsets each
+           # do not finish within an hour)
+           ("mc3d", dict(Sizes2=set(), Sizes3={1, 2} if quick else {1, 2, 3}, MaxSteps=2, Empties=EMP,
                          WriteVals={7}, MaxWrites=1 if quick else 0, KeepLog=False), ["Refines", "OffsetIsAccumulated"]),
            ("mchist", dict(Sizes2={1, 2, 3}, Sizes3=set() if quick else {2}, MaxSteps=2, Empties=EMP, WriteVals={7}, MaxWrites=1,
                            KeepLog=True), ["Refines", "OffsetIsAccumulated", "HistoryMeaning"])]
     if not quick:
+        mcs.append(("mc3d_deep", dict(Sizes2=set(), Sizes3={1, 2}, MaxSteps=3, Empties=EMP, WriteVals={7}, MaxWrites=0, KeepLog=False),
+                    ["Refines", "OffsetIsAccumulated"]))
         mcs.append(("mcwrites", dict(Sizes2={1, 2, 3}, Sizes3={1, 2}, MaxSteps=3, Empties=EMP, WriteVals={7, 8},
                                      MaxWrites=2, KeepLog=False), ["Refines", "OffsetIsAccumulated"]))
     consts = {}
